@@ -11,7 +11,7 @@ import json, os, shutil, subprocess, sys, tempfile
 from concurrent.futures import ThreadPoolExecutor
 HERE = os.path.dirname(os.path.abspath(__file__))
 ROOT = os.path.dirname(HERE)
-DIRS = [os.path.join(ROOT, "selftest", "benign_indep"), os.path.join(ROOT, "selftest", "near_miss")]
+DIRS = [os.path.join(ROOT, "selftest", "benign_indep"), os.path.join(ROOT, "selftest", "near_miss"), os.path.join(ROOT, "selftest", "structural")]
 
 
 def one(path):
@@ -27,7 +27,7 @@ def one(path):
         for i in range(1, 21):
             c = "C%02d" % i
             p = subprocess.run([os.path.join(ROOT, "bin", "check"), c, "--repo", tmp], capture_output=True, text=True,
-                               env=dict(os.environ, SIGVERIF_NO_EVIDENCE="1", OMP_NUM_THREADS="1"))
+                               env=dict(os.environ, SIGVERIF_NO_EVIDENCE="1", SIGVERIF_NO_INHERIT="1", OMP_NUM_THREADS="1"))
             if p.returncode != 0:
                 lines = [l for l in (p.stdout + p.stderr).splitlines() if l.startswith("  sigpy") or l.startswith("  line") or l.startswith("ANALYSIS-ERROR")]
                 alarms[c] = (p.returncode, lines[0][:300] if lines else "")
